@@ -210,12 +210,22 @@ CHECKS = [
      "(bytes, dtype, shape, strides, flags, address, shares_memory) of pos/neg/easy counts/flags and of every caller array, "
      "result shape, scalar type, elementwise equality with scalar calls, alias equality, identical bytes on immediate and "
      "end-of-history repetition, first result untouched by the repetition; scalar results are compared with the model's "
-     "runHistory and the Lean predicates repeatFlags / shape predicates are evaluated on the implementation's observations.",
-     BASE_NOTE + "No-mutation, scalar-type and identical-bytes clauses are decided on sampled histories only (a pure model "
-     "cannot exhibit NumPy aliasing or in-place writes); eer/auc/roc/threshold_at_metric/bootstrap_* (identity sampler)/"
+     "runHistory and the Lean predicates repeatFlags / shape predicates are evaluated on the implementation's observations. "
+     "EFFECT MODEL, regenerated from /repo's source on every run (harness/effects.py: Python ast -> effect IR of every public "
+     "function/method of scores.py, metrics.py, cm.py, utils.py, roc_curve.py, group_scores.py ... with an untrusted certificate "
+     "and callee-summary table): SA/Model/Effects.lean gives the IR a heap semantics (one cell per array buffer / object) and a "
+     "certificate checker; C10Effects proves exec_sound / summary_conformance / C10_effects_no_mutation (an accepted body leaves "
+     "every pre-existing cell - the object's arrays, self's field table, every caller array - byte-identical for any oracle and "
+     "heap) and analysis_sound; the generated theorem `generated_c10_effects_ok` is kernel-evaluated on the translation of the "
+     "CURRENT source each run, and a definite violation (an in-place write through an alias of a parameter / self, a store to "
+     "self in a query) is a broken proof obligation naming function, line and statement.",
+     BASE_NOTE + "No-mutation is proved for the translated effect IR (trusted: the translator and its classification of NumPy/"
+     "builtin operations as fresh-result / view / in-place, static method resolution, caller-supplied callables are the "
+     "caller's code); scalar-type and identical-bytes clauses are decided on sampled histories only; eer/auc/roc/threshold_at_metric/bootstrap_* (identity sampler)/"
      "pointwise_cm/ConfusionMatrix metrics are outside the model's Query type and checked on the Python side only; one open "
      "finding (bootstrap_ci 'quantile' with an empty 1-d metric raises AxisError) is listed in known_findings.json.",
-     "Lean 4 proof about a hand-written model + differential correspondence check on call histories", "DESIGN.md §5 C10"),
+     "Lean 4 proof about a hand-written model + differential correspondence check on call histories + effect model "
+     "regenerated from the source by a translator and kernel-checked each run", "DESIGN.md §5 C10"),
  chk("C17",
      "Lean theorems prove for ALL non-decreasing x whose duplicates carry equal y, all y and all targets: C17_solves (every "
      "point from a crossing segment j lies in [x_j, x_{j+1}), x_j < x_{j+1}, and the interpolant of segment j equals the "
